@@ -66,6 +66,21 @@ def do_stream(ctx, name, cases, project, monitors=(), exhaustive=None, oracle=No
         rep.violation("%s: implementation and model disagree on %s" % (name, describe_case(case)), case=case,
                       impl=a.get(cid), model=b.get(cid), oracle="first difference at projected line %d: impl=%r model=%r" % (i, la, lb),
                       stream=name)
+    # input distribution: how many texts of this stream the model accepts / rejects (a stream meant to exercise
+    # evaluation that is mostly rejected would be vacuous; see DESIGN.md section 15)
+    if not impl_only:
+        acc = rej = 0
+        for cid, lines in b.items():
+            for l in lines:
+                p = l.split(" ", 3)
+                if len(p) > 1 and p[0][:1] == "T" and p[0][1:].isdigit():
+                    if p[1] in ("parseerr", "scanerr"):
+                        rej += 1
+                    elif p[1] == "S0" or p[1] == "empty":
+                        acc += 1
+        if acc + rej:
+            rep.count("texts-accepted:" + name, acc)
+            rep.count("texts-rejected:" + name, rej)
     # monitors on the implementation alone
     mon_hits = 0
     for cid, lines in a.items():
@@ -237,6 +252,13 @@ def run_C02(ctx):
             "|3e200 + 4e200*i|", "|3e-200*i|", "√(1e300 * i)", "(1e200)^2", "169!", "170!", "171!", "(169+1)!", "1.7e2!", "18!", "19!", "22!", "23!",
             "⌈1e300⌉", "⌊-1e300⌋", "⌈0.1 + 0.2⌉", "⌊0.1 * 3 * 10⌋", "5 % 3", "5.5 % -2", "-5.5 % 2", "(5+5*i) % 3", "(5+5*i) % (1+i)", "7 % 7", "1e300 % 7"]
     run_values(ctx, "edge", edge, oracle=oracles.oracle_numbers)
+    # every operator on every pair / every unary form on every one of the numeric classes
+    vc = props.VALUE_CLASSES
+    vcx = ["(%s) %s (%s)" % (a, op, b) for op in ["+", "-", "*", "/", "%", "^"] for a in vc for b in (vc if not quick else vc[::3] + vc[1:9])]
+    vcx += [f % a for a in vc for f in ["-(%s)", "√(%s)", "(%s)!", "|%s|", "⌈%s⌉", "⌊%s⌋", "((%s))", "--(%s)", "√√(%s)", "⌈-(%s)⌉", "⌊(%s) + 0.5⌋", "⌈(%s) - 0.5⌉", "(%s)^0.5", "(%s)^-1", "(%s)^2",
+                                            "1/(%s)", "0 - (%s)", "(%s) * 1", "(%s) + 0", "(%s) - (%s)" % ("%s", a) if False else "(%s) / 1"]]
+    vcx += ["(%s) - (%s)" % (a, a) for a in vc] + ["(%s) / (%s)" % (a, a) for a in vc] + ["(%s) %% (%s)" % (a, a) for a in vc]
+    run_values(ctx, "value-classes", vcx, oracle=oracles.oracle_numbers)
     # the same values reached through a variable, a parameter and a function result: binding a value never changes it
     vals = ["1e-20*i", "3e-17*i", "1 + 1e-17*i", "1e-300", "0*-1", "1e308*10", "1e-20", "2.2e-16*i", "i*4.9e-324", "1e-17 + i", "2 - 1e-16*i", "e^(i*pi)",
             "1e-200 + 1e-200*i", "-(0*i)", "1e308*10 - 1e308*10", "0.1 + 0.2", "1/3", "2^0.5", "1e21", "9007199254740993"] + \
@@ -252,7 +274,7 @@ def run_C03(ctx):
               exhaustive="all token sequences over the 29 kinds up to length %d" % (3 if quick else 4))
     do_stream(ctx, "parsek-reduced", gen.parsek_exhaustive(gen.REDUCED, 4 if quick else 5, "r"), P, oracle=oracles.oracle_parse,
               exhaustive="all token sequences over the reduced 23-symbol alphabet up to length %d" % (4 if quick else 5))
-    g = gen.ExprGen(rng, funcs=("f", "sin", "g"))
+    g = gen.ExprGen(rng, funcs=("f", "sin", "gg", "g"))     # `g` is the gram: a unit in call position is part of what C03 decides
     texts = []
     for k in range(3000 if quick else 60000):
         e = g.expression(rng.choice([1, 2, 3, 4, 6, 8]))
@@ -345,11 +367,27 @@ def run_C05(ctx):
 def run_C06(ctx):
     ex = props.measurement_exprs(ctx["rng"], ctx["quick"])
     run_values(ctx, "measurements", ex, oracle=oracles.oracle_eval)
+    run_interplay(ctx)
+
+
+def run_interplay(ctx):
+    run_values(ctx, "interplay", INTERPLAY, with_info=True, prelude=INTERPLAY_PRELUDE)
 
 
 def run_C07(ctx):
     ex = props.matrix_exprs(ctx["rng"], ctx["quick"])
     run_values(ctx, "matrices", ex, oracle=oracles.oracle_linear_algebra)
+    run_interplay(ctx)
+
+
+INTERPLAY_PRELUDE = "dbl(q) = q * 2\ntokm(q) = q as km\nmk(q) = [q, q + 1; q + 2, q * q]\napply(hh, q) = hh(q)\nlen(v) = |v|\nx = 3\ny = 0.5 - 2*i\n"
+INTERPLAY = ["dbl(3 m)", "tokm(1500 m) + 1 km", "dbl(tokm(1500 m))", "tokm(dbl(750 m))", "mk(2) * mk(3)", "mk(1 m)", "determinant(mk(2))", "inverse(mk(2)) * mk(2)", "dbl([1,2])",
+             "tokm([1,2])", "dbl(2 °C)", "|dbl(3 m)|", "dbl(3 m) / dbl(2 m)", "tokm(dbl(1 in))", "apply(sqrt, 4 m)", "apply(dbl, 4 m)", "apply(tokm, 2500 m)", "apply(mk, 2)",
+             "apply(determinant, mk(3))", "apply(transpose, [1,2;3,4])", "apply(len, [3,4])", "len([3 m, 4 m])", "[1 m, 2 m]", "[dbl(1), dbl(2)] dot [1, 2]", "len(dbl([3,4]))",
+             "transpose(dbl([1,2;3,4]))", "dbl(x) as m", "dbl(x as m)", "(dbl(x) as m) as cm", "tokm(x)", "tokm(y)", "tokm(tokm(5))", "tokm(2 kg)", "mk(y)", "determinant(mk(y))",
+             "dbl(dbl)", "apply(apply, 1)", "mk(mk(1))", "mk(2) cross mk(2)", "[1,2,3] cross dbl([4,5,6])", "dbl([1,2,3]) dot [4,5,6]", "dbl(1 KiB) as B", "dbl(8 b) as B",
+             "tokm(3 m) * tokm(3 m)", "tokm(3 m) + 3", "3 + tokm(3 m)", "-tokm(3 m)", "tokm(-3)", "tokm(0)", "mk(0)", "inverse(mk(0))", "identity(dbl(1))", "identity(2) * dbl(3)",
+             "dbl(identity(2))", "determinant(dbl(identity(3)))", "sqrt(dbl(8))", "sqrt(dbl(8)) as m", "gcd(dbl(6), dbl(4))", "dbl(gcd(6, 4)) km"]
 
 
 def run_C08(ctx):
@@ -519,6 +557,18 @@ def run_C14(ctx):
               "1 +\r\n2\r\n", "x = (1 + 2\r\n", "5 as\r\n", "f(1,\r\n", "1 + 1\r\nnope\r\n2\r\n", "\tx = 1\r\n\tnope + 1\r\n", "1 2\r\n"]:
         cases.append(gen.hist_case("d%d" % k, [pre, t]))
         k += 1
+    # far positions: lines and columns beyond 255 and 65535, reached by newlines, blanks, tabs, multi-byte characters,
+    # long names, long numerals and many statements
+    for fault in ["1 / 0", "unknown", "1 +", "#", "sin(1, 2)", "5 m + 1"]:
+        for n in (255, 256, 257, 1000, 65535, 65536, 70000):
+            for pref in ["\n" * n, " " * n, "\t" * n, "é" * n + " = 1; ", "é" * n + " + ", "1" * n + " + ", "0." + "3" * n + " * "]:
+                cases.append(gen.hist_case("d%d" % k, [pre, pref + fault + "\nx\n"], tab=rng.choice([1, 4, 255])))
+                k += 1
+        for n in (49, 50, 51, 255, 256, 300):
+            cases.append(gen.hist_case("d%d" % k, [pre, "x = x + 1\n" * n + fault + "\nx\n"]))
+            k += 1
+            cases.append(gen.hist_case("d%d" % k, [pre, "x = x + 1; " * n + fault + "; x\n"]))
+            k += 1
     two = ["(1/0) + unknown", "unknown + (1/0)", "sin(1/0, unknown)", "[1/0, unknown]", "[unknown; 1/0]", "f(unknown)(1/0)", "unknown(1/0)", "(1/0)(unknown)",
            "(5 m + 1) * (1/0)", "-(1/0) + 2.5!", "|unknown| + ⌈i⌉", "f(1/0, unknown, 3)", "sin(unknown) + sin(1, 2)", "(1/0) as m", "unknown as kg"]
     for t in two:
